@@ -170,9 +170,9 @@ class ArraySys(System):
         ops += [('mode', 'r'), ('mode', 'r+'), ('reopen',), ('truncpath', 0), ('truncpath', -1)]
         if 'meta' in self.features:
             ops += [('meta', 'set', 'a'), ('meta', 'set', 'b'), ('meta', 'del', 'a'),
-                    ('meta', 'del', 'b'), ('meta', 'change', 'a')]
+                    ('meta', 'del', 'b'), ('meta', 'change', 'a'), ('meta', 'popitem', 'any')]
         if 'meta1' in self.features:
-            ops += [('meta', 'set', 'a'), ('meta', 'del', 'a'), ('meta', 'change', 'a')]
+            ops += [('meta', 'set', 'a'), ('meta', 'del', 'a'), ('meta', 'change', 'a'), ('meta', 'popitem', 'any')]
         if 'recreate' in self.features:
             ops += [('recreate', 'other'), ('recreate', 'meta'), ('recreate', 'same0'), ('recreate', 'genmix'),
                     ('recreate', 'strided'), ('recreate', 'reject')]
@@ -440,6 +440,10 @@ class ArraySys(System):
             call = lambda: a.metadata.__setitem__(key, 'changed')
             newmeta[key] = 'changed'
             expect = 'returns'
+        elif action == 'popitem':
+            popped = []
+            call = lambda: popped.append(a.metadata.popitem())
+            expect = 'returns' if m.meta else 'raises'
         else:
             call = lambda: a.metadata.pop(key)
             expect = 'returns' if key in m.meta else 'raises'
@@ -452,6 +456,8 @@ class ArraySys(System):
             # metadata semantics are C13's business; here a disagreement only prunes
             return StepResult(label, [viol('metamodel', opdesc, pre, label, 'metadata op disagrees with model')],
                               diverged=True)
+        if what == 'returns' and action == 'popitem':
+            newmeta.pop(popped[0][0], None)          # whichever item Darr chose
         if what == 'returns':
             m.meta = newmeta
         got = dict(a.metadata)
